@@ -37,6 +37,8 @@ func init() {
 		},
 		Required:         []string{"executions", "outcome found", "outcome cancelled", "outcome found although cancelled", "simultaneous-find executions", "cancel before call", "goroutines accounted", "executions with a second caller on the same Worker"},
 		WatchdogQuick:    1500,
+		StallQuick:       900, // the check has its own dump-based detection of calls that never return
+		StallThorough:    3000,
 		WatchdogThorough: 7200,
 		Post: func(r *fw.RunResult) {
 			var orders []string
